@@ -114,7 +114,11 @@ struct Out {
 }
 
 fn check_committee(weights: &[u64], seed: u64, tier: Tier) -> Out {
-    let c = util::committee(seed, weights);
+    check_committee_elig(weights, u32::MAX, seed, tier)
+}
+
+fn check_committee_elig(weights: &[u64], leaders: u32, seed: u64, tier: Tier) -> Out {
+    let c = util::committee_elig(seed, weights, 0, 0, Default::default(), leaders);
     let w = World { c: c.clone(), proposals: vec![Payload(vec![1])], invalid_payload: Payload(vec![2]) };
     let cx = Ctx { w, pa: Payload(vec![0xA]), pb: Payload(vec![0xB]), pc: Payload(vec![0xC]) };
     let n = c.n();
@@ -288,7 +292,10 @@ pub fn run(args: &Args) -> Report {
         }
         return rep;
     }
-    let outs = par_map(committees.len(), |i| check_committee(&committees[i], args.seed, args.tier));
+    // committees in which only some validators are leader-eligible: the decision function and the lemma
+    // are about weights, eligibility must not matter
+    let mixed: Vec<(Vec<u64>, u32)> = vec![(vec![2, 2, 1, 1], 0b0100), (vec![1, 1, 1, 1, 1], 0b00011), (vec![1; 6], 0b000001)];
+    let outs = par_map(committees.len() + mixed.len(), |i| if i < committees.len() { check_committee(&committees[i], args.seed, args.tier) } else { let (w, l) = &mixed[i - committees.len()]; check_committee_elig(w, *l, args.seed, args.tier) });
     let (mut evals, mut lemma, mut repro) = (0, 0, 0);
     let mut skipped = 0u64;
     let mut by: BTreeMap<String, (u64, String, serde_json::Value)> = BTreeMap::new();
@@ -316,6 +323,7 @@ pub fn run(args: &Args) -> Report {
         "exhaustive": skipped == 0,
         "signer_subsets_skipped_above_the_assignment_cap": skipped,
         "committees": committees.len(),
+        "committees_with_mixed_leader_eligibility": mixed.len(),
         "lemma_instances": lemma,
         "certificates_forcing_reproposal": repro,
         "samples": [
